@@ -19,7 +19,7 @@ for d in sorted(glob.glob('/verif/seeded/*/')):
     meta = json.load(open(mp))
     r = res.get(sid)
     if r is None: continue
-    meta["check_run"] = "./check %s quick against the change applied in a scratch worktree (dev/seedsweep.sh)" % sid.split('-')[0]
+    meta["check_run"] = "final state: ./check %s quick -only <the harness(es) that reported the change when the whole property was run against it> with the change applied in a scratch worktree (dev/seedsweep_fast.sh); earlier: the whole property (dev/seedsweep.sh, dev/seed3.sh)" % sid.split('-')[0]
     if r["exit"] == 1 and r["by"]:
         meta["detected"] = True
         meta["caught_by"] = r["by"]
